@@ -696,6 +696,32 @@ func preservePackageSurfaceSymbols(files []parsedFile, cfg *Config, protected *p
 	for i := range files {
 		recordFileQualifiedReferences(files[i].exprs, qualifiedRefs)
 	}
+	// Names exported by an export form ANYWHERE in the session.  The
+	// analysis of one file marks a definition as exported only when the
+	// export form is in that same file; a definition whose export form sits
+	// in another file of the session is part of the package surface all the
+	// same.
+	sessionExports := make(map[string]bool)
+	if cfg == nil || !cfg.RenameExports {
+		for i := range files {
+			pkg := "user"
+			for _, expr := range files[i].exprs {
+				if expr.Type != lisp.LSExpr || expr.IsQuoted() || len(expr.Cells) == 0 || expr.Cells[0].Type != lisp.LSymbol {
+					continue
+				}
+				switch expr.Cells[0].Str {
+				case "in-package":
+					if name := packageName(expr.Cells[1:]); name != "" {
+						pkg = name
+					}
+				case "export":
+					for _, name := range exportNames(expr.Cells[1:]) {
+						sessionExports[pkg+"/"+name] = true
+					}
+				}
+			}
+		}
+	}
 	for i := range files {
 		currentPkg := "user"
 		for _, expr := range files[i].exprs {
@@ -732,7 +758,7 @@ func preservePackageSurfaceSymbols(files []parsedFile, cfg *Config, protected *p
 				}
 			case "defun", "deftype":
 				if len(expr.Cells) > 1 && expr.Cells[1].Type == lisp.LSymbol {
-					if qualifiedRefs[currentPkg+"/"+expr.Cells[1].Str] {
+					if key := currentPkg + "/" + expr.Cells[1].Str; qualifiedRefs[key] || sessionExports[key] {
 						preserveQualifiedDefinitionNode(files[i].analysis, expr.Cells[1], cfg, protected)
 					}
 				}
